@@ -74,6 +74,7 @@ def findings(repo, prog):
         _g14(f, out)
         _g15(f, out)
         _g16(f, out)
+        _g17(f, out)
         _g4d(f, out)
         _g5b(f, out)
         _g4c(f, out)
@@ -1984,3 +1985,49 @@ def stale_hoisted_tests(fnode):
                         isinstance(y, ast.Name) and y.id == x and isinstance(y.ctx, ast.Load) for y in ast.walk(n.test)):
                     yield st, moved[0], lp, n
                     break
+
+
+# --------------------------------------------------------------------------- G17
+# a literal format string asks for arguments the .format() call does not pass
+
+
+def format_arity(fnode):
+    """`"<literal>".format(a, b, k=v)` whose replacement fields name a keyword that is not passed, or number (explicitly
+    or by auto-numbering) more positional arguments than are passed: str.format raises KeyError / IndexError when the
+    statement is reached.  Calls that forward *args / **kwargs are not decided.  Yields (call, reason)."""
+    import string as _string
+    for c in walk_fn(fnode) if isinstance(fnode, (ast.FunctionDef, ast.AsyncFunctionDef)) else ():
+        if not (isinstance(c, ast.Call) and isinstance(c.func, ast.Attribute) and c.func.attr == 'format'
+                and isinstance(c.func.value, ast.Constant) and isinstance(c.func.value.value, str)):
+            continue
+        if any(isinstance(a, ast.Starred) for a in c.args) or any(k.arg is None for k in c.keywords):
+            continue
+        try:
+            fields = [f[1] for f in _string.Formatter().parse(c.func.value.value) if f[1] is not None]
+        except ValueError:
+            continue
+        npos, kws = len(c.args), {k.arg for k in c.keywords}
+        auto = 0
+        for f in fields:
+            head = re.split(r'[.\[]', f, 1)[0]
+            if head == '':
+                auto += 1
+                if auto > npos:
+                    yield c, 'replacement field number %d has no argument (%d passed)' % (auto, npos)
+                    break
+            elif head.isdigit():
+                if int(head) >= npos:
+                    yield c, 'replacement field {%s} has no argument (%d passed)' % (head, npos)
+                    break
+            elif head not in kws:
+                yield c, 'replacement field {%s} is a keyword the call does not pass' % head
+                break
+
+
+def _g17(f, out):
+    for c, why in format_arity(f.node):
+        out.append(Finding('G17', 'REFUTED', f.mod, enclosing_stmt(c) or c, f.key,
+                           '%s: %s -- str.format raises %s when this statement is reached (an error message being built on an '
+                           'error path: the exception that escapes is not the parse error that was meant)'
+                           % (short(c, 60), why, 'KeyError' if 'keyword' in why else 'IndexError'),
+                           '%s: format %s' % (f.qual, short(c.func.value, 40))))
